@@ -1,6 +1,7 @@
 import Vet.Props.C12Prune
 import Vet.Props.Resolve
 import Vet.Props.Commands
+import Vet.Props.WFCorollaries
 #print axioms Vet.search_minimax
 #print axioms Vet.C12_fully_only_if
 #print axioms Vet.C12_fully_if
@@ -9,3 +10,4 @@ import Vet.Props.Commands
 #print axioms Vet.C12_command_exemption_needed_partial
 #print axioms Vet.Cmd.prunesExemptionsOf_table
 #print axioms Vet.Cmd_certify_example
+#print axioms Vet.C12_command_exemption_needed_wf
